@@ -1,14 +1,29 @@
-Check (C13_write_all_accepts_a_prefix : forall script buf s' acc e, write_all script buf = (s', acc, e) -> exists rest, buf = acc ++ rest /\ (e = None -> rest = [])).
-Check (C13_error_only_if_the_sink_failed : forall script buf s' acc e, write_all script buf = (s', acc, e) -> e <> None -> ~ benign script).
-Check (C13_plan_accepts_a_prefix : forall bufs bw s bw' s' e, run_plan bufs bw s = (bw', s', e) -> exists acc rest, sink_bytes s' = sink_bytes s ++ acc /\ concat bufs = acc ++ rest /\ (e = None -> rest = [])).
-Check (C13_accepted_bytes_are_a_prefix_of_the_fault_free_file : forall w v m fs chunks script,
+Open Scope N_scope.
+Check (C13_write_all_accepts_a_prefix : (forall script buf s' acc e,
+  write_all script buf = (s', acc, e) -> exists rest, buf = acc ++ rest /\ (e = None -> rest = []))%type).
+Check (C13_error_only_if_the_sink_failed : (forall script buf s' acc e,
+  write_all script buf = (s', acc, e) -> e <> None -> ~ benign script)%type).
+Check (C13_plan_accepts_a_prefix : (forall bufs bw s bw' s' e,
+  run_plan bufs bw s = (bw', s', e) ->
+  exists acc rest, sink_bytes s' = sink_bytes s ++ acc /\ concat bufs = acc ++ rest /\ (e = None -> rest = []))%type).
+Check (C13_accepted_bytes_are_a_prefix_of_the_fault_free_file : (forall w v m fs chunks script,
   let w_faulty := with_sink w (w_finalized w) (w_bytes_written w) {| sk_rev_chunks := chunks; sk_script := script |} in
   let w_clean  := with_sink w (w_finalized w) (w_bytes_written w) {| sk_rev_chunks := chunks; sk_script := [] |} in
-  exists rest, sink_bytes (w_sink (fst (finalize w_clean v m fs))) = sink_bytes (w_sink (fst (finalize w_faulty v m fs))) ++ rest).
-Check (C13_benign_sink_same_as_fault_free : forall w v m fs chunks script, benign script ->
+  exists rest, sink_bytes (w_sink (fst (finalize w_clean v m fs))) =
+               sink_bytes (w_sink (fst (finalize w_faulty v m fs))) ++ rest)%type).
+Check (C13_benign_sink_same_as_fault_free : (forall w v m fs chunks script, benign script ->
   let w_faulty := with_sink w (w_finalized w) (w_bytes_written w) {| sk_rev_chunks := chunks; sk_script := script |} in
   let w_clean  := with_sink w (w_finalized w) (w_bytes_written w) {| sk_rev_chunks := chunks; sk_script := [] |} in
   sink_bytes (w_sink (fst (finalize w_faulty v m fs))) = sink_bytes (w_sink (fst (finalize w_clean v m fs))) /\
   snd (finalize w_faulty v m fs) = snd (finalize w_clean v m fs) /\
-  w_bytes_written (fst (finalize w_faulty v m fs)) = w_bytes_written (fst (finalize w_clean v m fs))).
-Check (C13_no_write_after_finalize : forall w v m fs, w_finalized w = true -> finalize w v m fs = (w, FinErr (FinIo IoOther))).
+  w_bytes_written (fst (finalize w_faulty v m fs)) = w_bytes_written (fst (finalize w_clean v m fs)))%type).
+Check (C13_no_write_after_finalize : (forall w v m fs,
+  w_finalized w = true -> finalize w v m fs = (w, FinErr (FinIo IoOther)))%type).
+Check (C13_faulty_history_is_prefix_of_fault_free : (forall b script m0 m0' ops,
+  build b script = inl m0 -> build b [] = inl m0' ->
+  exists rest, sink_of (fst (run m0' ops)) = sink_of (fst (run m0 ops)) ++ rest)%type).
+Check (C13_benign_history_same_as_fault_free : (forall b script m0 m0' ops,
+  benign script -> build b script = inl m0 -> build b [] = inl m0' ->
+  snd (run m0 ops) = snd (run m0' ops) /\ sink_of (fst (run m0 ops)) = sink_of (fst (run m0' ops)))%type).
+Check (C13_nothing_is_written_after_finalization : (forall m ops,
+  w_finalized (m_writer m) = true -> sink_of (fst (run m ops)) = sink_of m)%type).
